@@ -19,6 +19,7 @@ import (
 	"github.com/prometheus/prometheus/tsdb/chunks"
 	"github.com/prometheus/prometheus/tsdb/index"
 	"github.com/prometheus/prometheus/tsdb/tombstones"
+	"github.com/prometheus/prometheus/tsdb/tsdbutil"
 	"github.com/prometheus/prometheus/util/annotations"
 
 	"github.com/thanos-io/thanos/pkg/block"
@@ -34,7 +35,8 @@ import (
 //   rw.block <series> <requests>      -> <series> | - | err      a real TSDB block is written, rewritten with
 //                                        compactv2.Compactor.WriteSeries + DeletionModifier, and read back
 //     series   = s{|s} | -          s = labels/chunk{/chunk}     labels = hexname=hexvalue{+…} (sorted by name)
-//     chunk    = t.v{,t.v}          (integers; t strictly increasing through the series)
+//     chunk    = [h]t.v{,t.v}       (integers; t strictly increasing through the series; h = native histogram
+//                                   chunk: v stands for tsdbutil.GenerateTestHistogram(v) and grows inside the chunk)
 //     requests = r{;r} | -          r = matchers/intervals
 //     matchers = m{,m} | e          m = hexname:typ:hexvalue:tbl   (as in C45; tbl = label values of this op line
 //                                   — "" as a bare x — on which the anchored regex matches)
@@ -45,7 +47,9 @@ import (
 // those outside every interval of the matching requests — unless a matching request has no
 // intervals, then nothing survives.  Classes: sample-lost (a sample outside the requested intervals is
 // gone; narrowed to chunk-emptied-by-several-intervals when the series has a chunk all of whose
-// samples are requested without one interval covering the chunk), sample-not-deleted, series-extra.
+// samples are requested without one interval covering the chunk), sample-not-deleted, series-extra;
+// a panic of the rewrite is histogram-chunk-reencode-panics when some native histogram chunk would have
+// to be re-encoded (overlapped by a requested interval, not inside one, a sample surviving), else rewrite-panic.
 
 func init() {
 	props = append(props, &hlib.Prop{ID: "C48", Gen: genC48, Exec: execC48})
@@ -58,6 +62,59 @@ type c48Series struct {
 	names  []string
 	values []string
 	chunks [][]c48Sample
+	hist   []bool // per chunk: native histogram chunk (the value v stands for tsdbutil.GenerateTestHistogram(v))
+}
+
+// c48Encode builds the chunk of an op line: XOR floats or native histograms.
+func c48Encode(ch []c48Sample, hist bool) (chunkenc.Chunk, error) {
+	if !hist {
+		x := chunkenc.NewXORChunk()
+		a, err := x.Appender()
+		if err != nil {
+			return nil, err
+		}
+		for _, sa := range ch {
+			a.Append(sa.t, float64(sa.v))
+		}
+		return x, nil
+	}
+	var c chunkenc.Chunk = chunkenc.NewHistogramChunk()
+	a, err := c.Appender()
+	if err != nil {
+		return nil, err
+	}
+	for _, sa := range ch {
+		nc, _, na, err := a.(*chunkenc.HistogramAppender).AppendHistogram(nil, sa.t, tsdbutil.GenerateTestHistogram(sa.v), false)
+		if err != nil {
+			return nil, err
+		}
+		if nc != nil {
+			return nil, fmt.Errorf("histogram chunk was cut")
+		}
+		a = na
+	}
+	return c, nil
+}
+
+// c48Decode reads a chunk back: samples and whether it holds histograms.
+func c48Decode(c chunkenc.Chunk) ([]c48Sample, bool, error) {
+	var ch []c48Sample
+	hist := false
+	it := c.Iterator(nil)
+	for vt := it.Next(); vt != chunkenc.ValNone; vt = it.Next() {
+		switch vt {
+		case chunkenc.ValFloat:
+			t, v := it.At()
+			ch = append(ch, c48Sample{t, int64(v)})
+		case chunkenc.ValHistogram:
+			t, h := it.AtHistogram(nil)
+			hist = true
+			ch = append(ch, c48Sample{t, (int64(h.Count) - 12) / 9})
+		default:
+			return nil, false, fmt.Errorf("unexpected value type %v", vt)
+		}
+	}
+	return ch, hist, it.Err()
 }
 
 type c48Request struct {
@@ -93,6 +150,9 @@ func c48ParseSeries(s string) ([]c48Series, bool) {
 		last := int64(-1 << 62)
 		for _, cs := range p[1:] {
 			var ch []c48Sample
+			isHist := strings.HasPrefix(cs, "h")
+			cs = strings.TrimPrefix(cs, "h")
+			se.hist = append(se.hist, isHist)
 			for _, x := range hlib.Split(cs, ",") {
 				tv := strings.Split(x, ".")
 				if len(tv) != 2 {
@@ -100,7 +160,11 @@ func c48ParseSeries(s string) ([]c48Series, bool) {
 				}
 				tt, e1 := strconv.ParseInt(tv[0], 10, 64)
 				vv, e2 := strconv.ParseInt(tv[1], 10, 64)
-				if e1 != nil || e2 != nil || tt <= last {
+				if e1 != nil || e2 != nil || tt <= last || (isHist && (vv < 0 || vv > 100000)) {
+					return nil, false
+				}
+				// histogram values grow inside a chunk (a drop would be a counter reset and cut the chunk)
+				if isHist && len(ch) > 0 && ch[len(ch)-1].v >= vv {
 					return nil, false
 				}
 				last = tt
@@ -182,14 +246,10 @@ func c48WriteBlock(dir string, in []c48Series) error {
 	var ref storage.SeriesRef
 	for _, s := range in {
 		var chks []chunks.Meta
-		for _, ch := range s.chunks {
-			x := chunkenc.NewXORChunk()
-			a, err := x.Appender()
+		for i, ch := range s.chunks {
+			x, err := c48Encode(ch, s.hist[i])
 			if err != nil {
 				return err
-			}
-			for _, sa := range ch {
-				a.Append(sa.t, float64(sa.v))
 			}
 			chks = append(chks, chunks.Meta{Chunk: x, MinTime: ch[0].t, MaxTime: ch[len(ch)-1].t})
 		}
@@ -238,16 +298,12 @@ func c48ReadBlock(dir string) ([]c48Series, error) {
 			if err != nil {
 				return nil, err
 			}
-			var ch []c48Sample
-			it := c.Chunk.Iterator(nil)
-			for it.Next() != chunkenc.ValNone {
-				t, v := it.At()
-				ch = append(ch, c48Sample{t, int64(v)})
-			}
-			if it.Err() != nil {
-				return nil, it.Err()
+			ch, isHist, err := c48Decode(c.Chunk)
+			if err != nil {
+				return nil, err
 			}
 			s.chunks = append(s.chunks, ch)
+			s.hist = append(s.hist, isHist)
 		}
 		out = append(out, s)
 	}
@@ -262,12 +318,16 @@ func c48Show(ss []c48Series) string {
 			ls = append(ls, hlib.HexS(s.names[i])+"="+hlib.HexS(s.values[i]))
 		}
 		parts := []string{hlib.Join(ls, "+")}
-		for _, ch := range s.chunks {
+		for i, ch := range s.chunks {
 			var xs []string
 			for _, sa := range ch {
 				xs = append(xs, fmt.Sprintf("%d.%d", sa.t, sa.v))
 			}
-			parts = append(parts, hlib.Join(xs, ","))
+			pre := ""
+			if i < len(s.hist) && s.hist[i] {
+				pre = "h"
+			}
+			parts = append(parts, pre+hlib.Join(xs, ","))
 		}
 		out = append(out, strings.Join(parts, "/"))
 	}
@@ -285,11 +345,10 @@ func (m *c48MemSet) At() storage.ChunkSeries {
 	s := m.series[m.i-1]
 	return &storage.ChunkSeriesEntry{Lset: s.lset, ChunkIteratorFn: func(chunks.Iterator) chunks.Iterator {
 		var metas []chunks.Meta
-		for _, ch := range s.chunks {
-			x := chunkenc.NewXORChunk()
-			a, _ := x.Appender()
-			for _, sa := range ch {
-				a.Append(sa.t, float64(sa.v))
+		for i, ch := range s.chunks {
+			x, err := c48Encode(ch, s.hist[i])
+			if err != nil {
+				panic(err)
 			}
 			metas = append(metas, chunks.Meta{Chunk: x, MinTime: ch[0].t, MaxTime: ch[len(ch)-1].t})
 		}
@@ -318,16 +377,15 @@ func c48RewriteMem(c *hlib.Ctx, in []c48Series, dreqs []metadata.DeletionRequest
 		it := s.Iterator(nil)
 		for it.Next() {
 			m := it.At()
-			var ch []c48Sample
-			ci := m.Chunk.Iterator(nil)
-			for ci.Next() != chunkenc.ValNone {
-				t, v := ci.At()
-				ch = append(ch, c48Sample{t, int64(v)})
+			ch, isHist, err := c48Decode(m.Chunk)
+			if err != nil {
+				return nil, err
 			}
 			if len(ch) == 0 || m.MinTime != ch[0].t || m.MaxTime != ch[len(ch)-1].t {
 				metaBad = true
 			}
 			o.chunks = append(o.chunks, ch)
+			o.hist = append(o.hist, isHist)
 		}
 		if it.Err() != nil {
 			return nil, it.Err()
@@ -377,19 +435,38 @@ func execC48(c *hlib.Ctx, tok []string) string {
 		dreqs = append(dreqs, dr)
 	}
 	var got []c48Series
-	if tok[0] == "rw.mod" {
-		var err error
-		got, err = c48RewriteMem(c, in, dreqs)
-		if err != nil {
-			c.Violation("rewrite-error", "the deletion modifier failed: "+err.Error())
-			return "err"
+	var res string
+	panicked := func() (p bool) {
+		defer func() {
+			if r := recover(); r != nil {
+				p = true
+				c.LastPanic = fmt.Sprint(r)
+			}
+		}()
+		if tok[0] == "rw.mod" {
+			var err error
+			got, err = c48RewriteMem(c, in, dreqs)
+			if err != nil {
+				c.Violation("rewrite-error", "the deletion modifier failed: "+err.Error())
+				res = "err"
+			}
+		} else {
+			got, res = c48RewriteBlock(c, in, dreqs)
 		}
-	} else {
-		var res string
-		got, res = c48RewriteBlock(c, in, dreqs)
-		if res != "" {
-			return res
+		return false
+	}()
+	if panicked {
+		// the rewrite crashed: the known limitation is a native histogram chunk that would have to be
+		// re-encoded (some, not all, of its samples deleted, or intervals overlapping it without deleting)
+		class := "rewrite-panic"
+		if c48HistReencode(in, reqs) {
+			class = "histogram-chunk-reencode-panics"
 		}
+		c.Violation(class, "the rewrite panics: "+c.LastPanic)
+		return "panic"
+	}
+	if res != "" {
+		return res
 	}
 	return c48Oracle(c, in, reqs, got)
 }
@@ -443,6 +520,71 @@ func c48RewriteBlock(c *hlib.Ctx, in []c48Series, dreqs []metadata.DeletionReque
 		return nil, "err:read:" + err.Error()
 	}
 	return got, ""
+}
+
+// c48Matching: the intervals requested for a series and whether it is deleted as a whole.
+func c48Matching(s c48Series, reqs []c48Request) (tombstones.Intervals, bool) {
+	var ivs tombstones.Intervals
+	whole := false
+	for _, r := range reqs {
+		match := true
+		for _, m := range r.matchers {
+			v := s.lset.Get(m.name)
+			if v == "" || !m.m.Matches(v) {
+				match = false
+				break
+			}
+		}
+		if !match {
+			continue
+		}
+		if len(r.intervals) == 0 {
+			whole = true
+		}
+		ivs = append(ivs, r.intervals...)
+	}
+	return ivs, whole
+}
+
+// c48HistReencode: some native histogram chunk of a series that is not deleted as a whole is
+// overlapped by a requested interval, is not inside one (merged) interval, and keeps a sample.
+func c48HistReencode(in []c48Series, reqs []c48Request) bool {
+	for _, s := range in {
+		ivs, whole := c48Matching(s, reqs)
+		if whole {
+			continue
+		}
+		var merged tombstones.Intervals
+		for _, iv := range ivs {
+			merged = merged.Add(iv)
+		}
+		for i, ch := range s.chunks {
+			if !s.hist[i] {
+				continue
+			}
+			mn, mx := ch[0].t, ch[len(ch)-1].t
+			if (tombstones.Interval{Mint: mn, Maxt: mx}).IsSubrange(merged) {
+				continue
+			}
+			overlap, survivor := false, false
+			for _, iv := range merged {
+				if mn <= iv.Maxt && iv.Mint <= mx {
+					overlap = true
+				}
+			}
+			for _, sa := range ch {
+				in1 := false
+				for _, iv := range merged {
+					in1 = in1 || (iv.Mint <= sa.t && sa.t <= iv.Maxt)
+				}
+				survivor = survivor || !in1
+			}
+			if overlap && survivor {
+				return true
+			}
+		}
+	}
+	return false
 }
 
 func c48Oracle(c *hlib.Ctx, in []c48Series, reqs []c48Request, got []c48Series) string {
@@ -654,8 +796,8 @@ func c48GenIntervals(c *hlib.Ctx, series []c48Series) []string {
 
 func genC48(c *hlib.Ctx) {
 	r := c.R
-	n := c.N(3000, 60000)
-	blockEvery := c.N(100, 400)
+	n := c.N(3000, 36000)
+	blockEvery := c.N(100, 120)
 	names := []string{"a", "b", "job", "z"}
 	vals := []string{"1", "2", "foo", "bar", "x y"}
 	for i := 0; i < n; i++ {
@@ -685,13 +827,24 @@ func genC48(c *hlib.Ctx) {
 			}
 			seenL[s.lset.String()] = true
 			t := int64(r.Intn(20))
+			histSeries := r.Chance(1, 6) // a series of native histograms
 			for k := r.Range(1, 3); k > 0; k-- {
 				var ch []c48Sample
+				hv := int64(r.Intn(5))
 				for m := r.Range(1, 6); m > 0; m-- {
-					ch = append(ch, c48Sample{t, int64(r.Intn(100))})
+					v := int64(r.Intn(100))
+					if histSeries {
+						hv += int64(r.Range(1, 9))
+						v = hv
+					}
+					ch = append(ch, c48Sample{t, v})
 					t += int64(r.Range(1, 12))
 				}
 				s.chunks = append(s.chunks, ch)
+				s.hist = append(s.hist, histSeries)
+			}
+			if histSeries {
+				c.Count("block:histogram-series")
 			}
 			for _, v := range s.values {
 				universe[v] = true
